@@ -100,6 +100,9 @@ BASES = [
     base("http", "example.com", segs=["-._~"], items=[("-._~", "-._~")]),
     base("http", "example.com", user="u", pw="p:w", segs=["a;b,c", "d(e)"], items=[("k", "v;w"), ("j", "x,y!")], frag="a:b@c"),
     base("https", "example.com", segs=["a+b", "c=d&e"], items=[("k", "a+b"), ("j", "$'*")]),
+    base("http", "youtube.com", segs=["watch"], items=[("v", "abcdefghijk")]),
+    base("https", "facebook.com", segs=["some.page", "posts", "1234567"]),
+    base("http", "example.com", segs=["go"], items=[("url", "http://target.com/page")]),
 ]
 
 
@@ -127,6 +130,8 @@ NORM = {
     "domain_keys": [[cp("facebook.com"), [cp("_rdc"), cp("_rdr")]],
                     [cp("youtube.com"), [cp(x) for x in ["t", "si", "cbrd", "ucbcb", "ab_channel"]]]],
     "lang_keys": [cp("gl"), cp("hl")],
+    "redirect_keys": [cp(x) for x in ["url", "u", "l", "q", "next", "redirect", "redirect_to", "target", "link", "goto", "redir", "orig"]],
+    "platform_domains": [[cp("youtube"), cp("com")], [cp("facebook"), cp("com")]],      # host order
     "sub_labels": [cp(x) for x in ["www", "mobile", "m"]],               # plus www<digit>
     "amp_label": cp("amp"),
     "index_names": [cp("index"), cp("default")],
@@ -166,7 +171,7 @@ LRU = {
     "host": [cp(x) for x in ["lemonde.fr", "www.lemonde.fr", "theguardian.co.uk", "Blog.Example.COM", "192.168.0.1", "[::1]", "localhost",
                               "a.b.example.org"]],
     "port": [cp(x) for x in ["", ":8080", ":80"]],
-    "path": [cp(x) for x in ["", "/", "/a", "/a/", "/a/b.html", "/a//b/", "/a:b/c@d", "/A/B"]],
+    "path": [cp(x) for x in ["", "/", "/a", "/a/", "/a/b.html", "//a/b", "/a//b/", "/a:b/c@d", "/A/B"]],
     "query": [cp(x) for x in ["", "?", "?q=1", "?a=b:c@d&e=f", "?x"]],
     "frag": [cp(x) for x in ["", "#", "#f", "#a:b@c=d"]],
     # the public suffixes the universe's hosts use, labels TLD first (consistency with ural's bundled list is checked at run time)
